@@ -137,14 +137,22 @@ Example ex4_compat_rejects_wrong_type : set_compat [PField 2; PIndex 3] (VI64 0)
    splice (Node.replace), field header / key bytes of Path.ToRaw, the container's 4-byte count patched in place
    (setNotFound: +1, deleteChild: -1) — refine the AST-level edits above, for all values, paths, sub-values.
    Domain predicates (computable, model/ThriftEditBytes.v):
-     set_dom p v     a raw (binary) map key that gets INSERTED is the encoding of a key of the map's key type
-     unset_dom fx p v  p is not empty; a raw key is a key encoding; and for fx = false only (deleteChild BEFORE repair 384585a of
+     set_dom p v     a raw (binary) map key that gets INSERTED is a byte string (all elements in 0..255) that the proved decoder
+                     accepts completely as a key of the map's key type (then it IS the encoding of that key: C04_decode_canonical)
+     unset_dom fx p v  p is not empty; a raw key decodes as a key (as above); and for fx = false only (deleteChild BEFORE repair 384585a of
                      finding 408, which compared Path.ToRaw's bytes whatever the step's kind): a last step on a map is of the map's key kind.
                      The theorems hold for both versions of deleteChild (fx); the implementation is fx = true
      op_dom / history_dom   depth <= 1023 (SkipGo's limit) before every op, non-empty paths, the two above, and the
                      API contract of insertions (set_compat) that keeps the states well-formed
    ====================================================================================================== *)
-From DG Require Import ThriftEditBytes ThriftEditBytesProofs.
+From DG Require Import ThriftCanonProofs ThriftEditBytes ThriftEditBytesProofs.
+
+(* the proved decoder accepts only canonical encodings: what it accepts is the encoding of the value it returns (so a raw key
+   that decodes is the encoding of the key it denotes, and implementation bytes that decode are the encoding of the model state) *)
+Theorem C04_decode_canonical : forall d t bs v r, bytes_ok bs -> decode d t bs = Some (v, r) ->
+  bs = encode v ++ r /\ type_of v = t.
+Proof. exact decode_canonical. Qed.
+Print Assumptions C04_decode_canonical.
 
 (* the walk of SetByPath finds what the AST lookup finds: same type and span, insertion address of an absent last step *)
 Theorem C04_walk_refines : forall p v r off, wf v = true -> (depth v <= max_skip_depth)%nat ->
